@@ -202,6 +202,17 @@ void XPathMatcher::startElement(const XMLElementDecl& elemDecl,
             continue;
         }
 
+        // ".//x" selects children of the context element and of its
+        // descendants: the context element itself (the first element seen,
+        // whose leading self::node() step was consumed above) is no candidate
+        // for the step behind the descendant step
+        if (sawDescendant && descendantStep > startStep &&
+            fStepIndexes->elementAt(i)->size() == 1) {
+
+            fCurrentStep[i] = descendantStep;
+            continue;
+        }
+
         // match child::... step, if haven't consumed any self::node()
         if ((fCurrentStep[i] == startStep || fCurrentStep[i] > descendantStep) &&
             locPath->getStep(fCurrentStep[i])->getAxisType() == XercesStep::AxisType_CHILD) {
